@@ -65,6 +65,9 @@ func runC05() {
 		t := []gtype{tBool, tInt, tStr, tArrInt, tArrAny, tAny}[rng.Intn(6)]
 		srcs = append(srcs, g.expr(t, 2+rng.Intn(3)))
 	}
+	// degenerate literals where a code-generation scheme has nothing to iterate over: every expression still pushes exactly one value
+	srcs = append(srcs, "I in []", "I not in []", "1 in []", "S in []", "# in []", "[1, I in []]", "(I in []) or B", "(I not in []) and B", "map(1..3, {# in []})", "filter(AI, {# not in []})",
+		"len([])", "[] == []", "{} == {}", "all([], {#})", "count([], {true})", "[[]]", "{a: []}", "I in [] ? 1 : 2", "not (I in [])", "[I in [], I not in []]")
 	var cases []string
 	distinct := map[string]bool{}
 	check := func(src string, m coreMode, toCoq bool) {
@@ -151,6 +154,21 @@ func runC05() {
 			big{fmt.Sprintf("map loop body with a %d-byte element block", s), "len(map(1..2, {" + l + "}))", 2},
 			big{fmt.Sprintf("all loop body with a %d-byte element block", s), "all(1..2, {len(" + l + ") > 0})", true},
 			big{fmt.Sprintf("filter loop body with a %d-byte element block", s), "len(filter(1..3, {len(" + l + ") > 0}))", 3},
+		)
+	}
+	// CHAINS of jumps: every hop fits 16 bits, the distance from the first jump to the end of the chain does not (a jump must
+	// never be re-targeted past what its operand can hold)
+	{
+		l40 := "len([" + strings.Repeat("1, ", 13399) + "1]) > 0"
+		bigs = append(bigs,
+			big{"and chain, two 40 KiB operands, first operand false", "false and " + l40 + " and " + l40, false},
+			big{"and chain, two 40 KiB operands, all true", "true and " + l40 + " and " + l40, true},
+			big{"or chain, two 40 KiB operands, first operand true", "true or not (" + l40 + ") or not (" + l40 + ")", true},
+			big{"or chain, two 40 KiB operands, all false", "false or not (" + l40 + ") or not (" + l40 + ")", false},
+			big{"and as the condition of ?: with 40 KiB operand and branch", "(false and " + l40 + ") ? (" + l40 + ") : false", false},
+			big{"and chain as a loop predicate", "count(1..2, {# > 5 and " + l40 + " and " + l40 + "})", 0},
+			big{"or chain as a loop predicate", "all(1..2, {# > 0 or not (" + l40 + ") or not (" + l40 + ")})", true},
+			big{"nested conditionals, 40 KiB branches", "false ? (" + l40 + ") : (false ? (" + l40 + ") : true)", true},
 		)
 	}
 	for _, n := range []int{65530, 65533, 65534, 65535, 65536, 70000} {
